@@ -105,17 +105,26 @@ def oracle_load_equality(ck, rng):
         if kind == "single":
             ld = SubtomogramLoader(image, mol, order=order, scale=scale, output_shape=S)
         else:
+            # several tomograms with different contents, numpy- and dask-backed in every order
             ld = BatchLoader(order=order, scale=scale, output_shape=S)
-            ld.add_tomogram(image, mol, image_id=1)
-        lb = ld.binning(b, compute=bool(i % 4))
-        got = lb.load(0)
-        big = ld.load(0, output_shape=tuple(b * s for s in S))
-        want = bin_image(big, b)
-        ok = got.shape == tuple(S) and np.array_equal(got, want) and abs(lb.scale - scale * b) < 1e-9
+            backing = [["np", "da"], ["da", "np", "da"], ["np", "np", "da"], ["da", "da"], ["np"], ["da", "np"]][(i // 3) % 6]
+            for j, bk in enumerate(backing):
+                imj = img if j == 0 else rng.integers(0, 50, size=dims).astype(np.float32)
+                ld.add_tomogram(da.from_array(imj, chunks=(7, 5, 6)) if bk == "da" else imj, mol, image_id=10 - j)
+        compute = bool(i % 4) if kind == "single" else bool((i // 3) % 4 != 3)
+        lb = ld.binning(b, compute=compute)
+        nm = 1 if kind == "single" else len(backing)
+        ok = abs(lb.scale - scale * b) < 1e-9
+        for j in range(nm):
+            got = lb.load(j)
+            big = ld.load(j, output_shape=tuple(b * s for s in S))
+            want = bin_image(big, b)
+            ok = ok and got.shape == tuple(S) and np.array_equal(got, want)
         ck.oracle_count("binned_load_equals_blocksum", 1, 1)
         if not ok:
             ck.violation(what="binned.load(i) differs from the block-sum of the b-times larger subtomogram of the original loader",
                          inp={"binsize": b, "box": list(S), "dims": list(dims), "scale": scale, "kind": kind, "dask": use_dask, "order": order,
+                              "backing": (backing if kind == "batch" else None), "compute": compute,
                               "center_px": c.tolist()}, key={"site": "load-equality", "kind": kind, "binsize": b}, oracle="binned_load_equals_blocksum")
 
 
